@@ -354,7 +354,12 @@ class _MultiplicationFunctionMaker(_OperationFunctionMaker):
         second_func = self._second_operand.func(input_value)
         second_jac = self._second_operand._jac(input_value)
 
+        # The operands' values scale the rows of the Jacobians (one row per output).
+        first_jac_t = numpy.transpose(first_jac)
+        second_jac_t = numpy.transpose(second_jac)
         if self._operator == numpy.multiply:
-            return first_jac * second_func + second_jac * first_func
+            return (first_jac_t * second_func + second_jac_t * first_func).T
 
-        return (first_jac * second_func - second_jac * first_func) / second_func**2
+        return (
+            (first_jac_t * second_func - second_jac_t * first_func) / second_func**2
+        ).T
